@@ -8,7 +8,7 @@ from hypothesis import strategies as st
 from ai_edge_quantizer import model_validator
 from ai_edge_quantizer.utils import validation_utils
 
-from vq import core, engine, fb, interp
+from vq import core, engine, fb, interp, kfpred
 from vq.core import Violation
 from vq.gen import graph as G
 from vq.gen import recipes as R
@@ -85,6 +85,10 @@ def own_comparison(ref_bytes, tgt_bytes, mspec, si, samples, metric_name):
 
 def check_case(case):
   mspec = case['model']
+  if kfpred.unsafe_findings(case):
+    # the quantized model would trigger a recorded runtime-UB finding (C06/C13 own
+    # it); executing it in the worker could corrupt later cases
+    return core.result(False, ['excluded:runtime_ub_finding'])
   out = engine.run(case)
   if out.stage == 'empty_recipe':
     return core.result(False, ['empty_recipe'])
